@@ -69,6 +69,8 @@ typedef struct {
         RLE_RUN,  /* buffer up to the current position is a run */
         RLE_MIX   /* buffer up to the current position is a mix */
     } rle_state;  /* state of the buffer storage */
+    int last_op;  /* DFACC_WRITE once data has been encoded since the last (re)initialisation:
+                     only then does the buffer hold output that has to be flushed */
 } comp_coder_rle_info_t;
 
 #ifdef __cplusplus
